@@ -5,7 +5,7 @@ CONSTANTS
   MaxItems = 2
   ArgVals = 1
   AssignMax = 4
-  ContentMax = 24
+  ContentMax = 60
   TypeIds <- AllIds
-INVARIANTS ThBuildValid ThBuildContent ThMonotone ThDefaultMinimal ThPortableImage Emit
+INVARIANTS All
 CHECK_DEADLOCK FALSE
